@@ -126,7 +126,16 @@ def analyse_root(spec):
             klass = getattr(mod, spec["self_class"])
             pos = [{A.new_instance(klass)}] + pos
         A.add_root(o, pos, {})
+    init_sites = set()
+    if spec["kind"] == "filter":
+        # phase 1: construction only, to tell construction-time writes of `self` from call-time ones
+        A0 = Analysis()
+        A0.add_root(klass.__init__, [{A0.new_instance(klass)}], {})
+        A0.solve()
+        init_sites = set(A0.sites)
     A.solve()
+    self_writes = sorted({(st[0], st[1], what, _src_line(st)) for (st, what), targets in A.sites.items()
+                          if (st, what) not in init_sites and any("@root" in t for t in targets) and what.startswith((".", "setattr", "del ."))})
     sites = []
     for (st, what), targets in sorted(A.sites.items()):
         sites.append({"file": st[0], "line": st[1], "what": what, "touches": sorted(targets)})
@@ -140,7 +149,7 @@ def analyse_root(spec):
     return {
         "root": spec["name"], "sites": sites, "alarms": alarms, "globals": gl, "functions": funcs, "rounds": A.rounds,
         "restarts": getattr(A, "restarts", 0), "contexts": len(A.ctxs), "unknown_calls": sorted(A.unknown_calls),
-        "trusted_fresh": sorted(A.trusted_fresh), "wall_s": round(time.time() - t0, 2), "cut_hits": sorted(A.cut_hits),
+        "self_writes": [list(x) for x in self_writes], "trusted_fresh": sorted(A.trusted_fresh), "wall_s": round(time.time() - t0, 2), "cut_hits": sorted(A.cut_hits),
     }
 
 
